@@ -17,6 +17,13 @@ from engine import lattice as L
 
 SPEC = os.path.join(tlc.SPEC_DIR, 'MetaTile.tla')
 BG = (255, 255, 255)
+# half of the cases run with a half-transparent upstream (RGBA, alpha 60..219 as a function of the position) and a transparent
+# cache: whatever cuts, pads or pastes the tiles must keep the four channels as they came
+ALPHA = [False]
+
+
+def alpha_of(cx, cy):
+    return 60 + (int(cx) * 3 + int(cy) * 5) % 160
 
 
 def make_painter(g, supports_meta, holes=None):
@@ -48,14 +55,14 @@ def make_painter(g, supports_meta, holes=None):
                         raise BlankImage()
             rx, ry = (bx1 - bx0) / float(w), (by1 - by0) / float(h)
             lres = min(g['res'], key=lambda r: abs(r - rx))
-            img = Image.new('RGB', (w, h))
+            img = Image.new('RGBA' if ALPHA[0] else 'RGB', (w, h))
             px = img.load()
             for j in range(h):
                 cy = int(((by1 - (j + 0.5) * ry) - gy0) // lres)
                 for i in range(w):
                     cx = int(((bx0 + (i + 0.5) * rx) - gx0) // lres)
-                    px[i, j] = ((cx + 20) % 256, (cy + 20) % 256, 100)
-            return ImageSource(img, size=query.size, image_opts=ImageOptions(format='image/png', colors=0))
+                    px[i, j] = ((cx + 20) % 256, (cy + 20) % 256, 100) + ((alpha_of(cx, cy),) if ALPHA[0] else ())
+            return ImageSource(img, size=query.size, image_opts=ImageOptions(format='image/png', colors=0, transparent=bool(ALPHA[0])))
     return Painter()
 
 
@@ -112,7 +119,7 @@ def manager(grid, g, strategy, ms, buf, holes=None):
     from mapproxy.cache.dummy import DummyLocker
     from mapproxy.image.opts import ImageOptions
     cache = make_cache()
-    opts = ImageOptions(format='image/png', colors=0)
+    opts = ImageOptions(format='image/png', colors=0, transparent=bool(ALPHA[0]))
     if strategy == 'single':
         src = make_painter(g, True)
         m = TileManager(grid, cache, [src], 'png', locker=DummyLocker(), image_opts=opts)
@@ -142,7 +149,7 @@ def tile_bbox_l(g, t):
 def decode(g, t, data):
     """position error / background summary of a stored tile (pure observation, no model involved)"""
     from PIL import Image
-    img = Image.open(io.BytesIO(data)).convert('RGB')
+    img = Image.open(io.BytesIO(data)).convert('RGBA' if ALPHA[0] else 'RGB')
     r = g['res'][t[2]]
     b = tile_bbox_l(g, t)
     px = img.load()
@@ -157,6 +164,14 @@ def decode(g, t, data):
             own_cx = (x0 - g['bbox'][0]) // r
             own_cy = (y1 - r - g['bbox'][1]) // r
             c = px[pi, pj]
+            if ALPHA[0]:
+                if c[3] == 0:
+                    c = BG                      # nothing there (padding beyond the extent)
+                elif c[3] != alpha_of(c[0] - 20, c[1] - 20) and c[2] == 100:
+                    foreign += 1                # the colour says which cell it is, the alpha is not that cell's
+                    continue
+                else:
+                    c = c[:3]
             deep = (x0 - r >= g['bbox'][0] and x0 + 2 * r <= g['bbox'][2] and y1 + r <= g['bbox'][3] and y1 - 2 * r >= g['bbox'][1])
             if c == BG:
                 if deep:
@@ -247,6 +262,7 @@ def observe(name, g, ctx, n_cases):
                 'crop': [list(o) for _, o in mt.tile_patterns]}
         if any(abs(v - round(v)) > 1e-6 for v in mt.bbox):
             real['bbox'] = [0, 0, 0, 0]
+        ALPHA[0] = rng.random() < 0.5
         obs = [run_strategy(grid, g, 'meta', ms, buf, t, [])]
         k = rng.random()
         gx, gy = grid_size(g, t[2])
@@ -281,7 +297,8 @@ def observe(name, g, ctx, n_cases):
         else:
             far = [(x, y, t[2]) for x in range(gx) for y in range(gy) if mg.main_tile((x, y, t[2])) != mg.main_tile(t)]
             obs.append(run_strategy(grid, g, 'concurrent', ms, buf, t, far[:1], meta_bbox=mt.bbox))
-        cases.append({'ms': list(ms), 'buf': buf, 't': list(t), 'real': real, 'obs': obs})
+        cases.append({'ms': list(ms), 'buf': buf, 't': list(t), 'real': real, 'obs': obs, 'alpha': bool(ALPHA[0])})
+    ALPHA[0] = False
     return {'grid': g, 'cases': cases}
 
 
